@@ -342,3 +342,76 @@ Theorem C08_original_bin_centres_refuted :
     hist_original QO e = Some [1 # 2; 3 # 2]%Q /\ hist_bin_centers QO e = Some [1 # 2; 2]%Q /\
     hist_original FO0 [0; 1; 3]%float = Some [0.5; 1.5]%float.
 Proof. exact hist_original_refuted. Qed.
+
+(** ** Tie A: the model IS the source.  [Generated/stats_loops.v] is regenerated on every run from
+    src/statistics/{moments,covariance,order,hist}.rs by the statement-level translator (tools/rsexpr.py, target
+    tools/tiea/stats_loops.py): loops are folds over lists, [usize] lives in [Z] ([x.len()] = [rs_len x], unsigned
+    [a - b] = the release build's wrapping [rs_usub]), a panic is [None].  For every carrier, every operations record
+    and every data list the generated function and the function of Model/Stats.v agree.  [linalg::sum] (another
+    file) is the generated [mean]'s parameter, instantiated by the C04 model [Reduce.sum]. *)
+Local Close Scope R_scope.
+From Compute Require Import Base.RsExpr Generated.stats_loops Proofs.TieA_stats_loops.
+(** the aggregate of the model ([nat] counter) as the source holds it ([usize] counter in [Z]) *)
+Theorem C08_model_is_source_welford_update :
+  forall (T : Type) (O : Ops T) (count : nat) (mean m2 x : T),
+    src_welford_update O (Z.of_nat count, mean, m2) x
+    = (let '(c, m, s) := welford_update O (count, mean, m2) x in (Z.of_nat c, m, s)).
+Proof. intros T O count mean m2 x. exact (tiea_welford_update O (count, mean, m2) x). Qed.
+Theorem C08_model_is_source_welford_statistics :
+  forall (T : Type) (O : Ops T) (data : list T),
+    src_welford_statistics O data = (let '(c, m, s) := welford_statistics O data in (Z.of_nat c, m, s)).
+Proof. exact @tiea_welford_statistics. Qed.
+Theorem C08_model_is_source_mean :
+  forall (T : Type) (O : Ops T) (data : list T), src_mean O (sum O) data = mean O data.
+Proof. exact @tiea_mean. Qed.
+Theorem C08_model_is_source_welford_mean :
+  forall (T : Type) (O : Ops T) (data : list T), src_welford_mean O data = welford_mean O data.
+Proof. exact @tiea_welford_mean. Qed.
+Theorem C08_model_is_source_var :
+  forall (T : Type) (O : Ops T) (data : list T), src_var O data = var O data.
+Proof. exact @tiea_var. Qed.
+Theorem C08_model_is_source_sample_var :
+  forall (T : Type) (O : Ops T) (data : list T), src_sample_var O data = sample_var O data.
+Proof. exact @tiea_sample_var. Qed.
+Theorem C08_model_is_source_std :
+  forall (T : Type) (O : Ops T) (data : list T), src_std O data = std O data.
+Proof. exact @tiea_std. Qed.
+Theorem C08_model_is_source_sample_std :
+  forall (T : Type) (O : Ops T) (data : list T), src_sample_std O data = sample_std O data.
+Proof. exact @tiea_sample_std. Qed.
+(** covariance.rs: all four algorithms, including the rejection of unequal lengths and the absence of any
+    out-of-bounds access (the source's checked [x[i]] never yields [None] once the lengths agree) *)
+Theorem C08_model_is_source_covariance :
+  forall (T : Type) (O : Ops T) (x y : list T), src_covariance O (sum O) x y = covariance O x y.
+Proof. exact @tiea_covariance. Qed.
+Theorem C08_model_is_source_sample_covariance :
+  forall (T : Type) (O : Ops T) (x y : list T), src_sample_covariance O (sum O) x y = sample_covariance O x y.
+Proof. exact @tiea_sample_covariance. Qed.
+Theorem C08_model_is_source_sample_covariance_onepass :
+  forall (T : Type) (O : Ops T) (x y : list T), src_sample_covariance_onepass O x y = sample_covariance_onepass O x y.
+Proof. exact @tiea_sample_covariance_onepass. Qed.
+Theorem C08_model_is_source_sample_covariance_online :
+  forall (T : Type) (O : Ops T) (x y : list T), src_sample_covariance_online O x y = sample_covariance_online O x y.
+Proof. exact @tiea_sample_covariance_online. Qed.
+(** order.rs *)
+Theorem C08_model_is_source_min :
+  forall (T : Type) (O : Ops T) (data : list T), src_min O data = Stats.min O data.
+Proof. exact @tiea_min. Qed.
+Theorem C08_model_is_source_max :
+  forall (T : Type) (O : Ops T) (data : list T), src_max O data = Stats.max O data.
+Proof. exact @tiea_max. Qed.
+Theorem C08_model_is_source_argmin :
+  forall (T : Type) (O : Ops T) (data : list T), src_argmin O data = Z.of_nat (argmin O data).
+Proof. exact @tiea_argmin. Qed.
+Theorem C08_model_is_source_argmax :
+  forall (T : Type) (O : Ops T) (data : list T), src_argmax O data = Z.of_nat (argmax O data).
+Proof. exact @tiea_argmax. Qed.
+(** hist.rs: the source's literal [2.] is [two O] = 1 + 1 under the translator's literal rule, the model writes
+    [ofZ O 2]; the carriers in use identify the two by computation *)
+Theorem C08_model_is_source_hist_bin_centers :
+  forall (T : Type) (O : Ops T), ofZ O 2 = two O ->
+    forall edges : list T, src_hist_bin_centers O edges = hist_bin_centers O edges.
+Proof. exact @tiea_hist_bin_centers. Qed.
+Theorem C08_model_is_source_hist_bin_centers_carriers :
+  ofZ RO 2 = two RO /\ ofZ QO 2 = two QO /\ forall t : libm_table, ofZ (FO t) 2 = two (FO t).
+Proof. exact (conj ofZ_two_RO (conj ofZ_two_QO ofZ_two_FO)). Qed.
